@@ -5,7 +5,7 @@
     liveS_reachable .................. every record of every active stream names a gauge the code accepts, after every
                                        `Admissible` history in which no SPONSORED stream is created (`Op.notSponsored`).
                                        Precise reason: `validateGauges` (CreateStream; Replace- and UpdateStreamDistribution
-                                       are outside `Admissible`) admits existing PERPETUAL gauges only, a perpetual
+                                       are outside `Admissible`) accepts existing PERPETUAL gauges only, a perpetual
                                        gauge is never finished (`perpetual_never_finished`), blocks never change a
                                        gauge's id / perpetual flag nor a non-sponsored stream's records.  A sponsored
                                        stream's records are the sponsorship distribution, read unvalidated at creation
@@ -118,7 +118,7 @@ theorem paging_state_independent_reachable (now mi : Nat) (ops : List Op) (hw : 
   exact paging_state_independent _ e he hi (ptrsOKS_of_strong _ hi hst) hsmall ns1 ns2 t1 t2 u1 u2 (liveS_of_named _ hn) h1 h2 f1 f2
 
 /-- non-vacuity: the history of `paging_gauge_side_counterexample` (Props/C15, limit 1) satisfies every hypothesis on
-    the history — admissible, no sponsored stream, no unsafe termination — and has an active hour stream -/
+    the history — admissible, no sponsored stream, no termination under a pointer — and has an active hour stream -/
 example : Admissible (strandedHistory 1) ∧ (∀ op ∈ strandedHistory 1, op.notSponsored) ∧
     TermSafe (init 100 1) (strandedHistory 1) ∧ (run (init 100 1) (strandedHistory 1)).streams.length < maxU64 := by
   refine ⟨by unfold Admissible; decide, by decide, by decide, by decide⟩
